@@ -300,7 +300,19 @@ fn run_entry(case: &Case, scratch: &std::path::Path) -> Result<String, String> {
 				if name.starts_with('/') || name.split('/').any(|s| s == ".." || s.is_empty()) || name.contains('\0') {
 					continue;
 				}
-				let p = root.join(name);
+				// '¿' in a generated name stands for the bytes FF FE: a name that is not valid UTF-8
+				let p = {
+					use std::os::unix::ffi::OsStringExt;
+					let mut bytes: Vec<u8> = vec![];
+					for c in name.chars() {
+						if c == '¿' {
+							bytes.extend_from_slice(&[0xFF, 0xFE]);
+						} else {
+							bytes.extend_from_slice(c.to_string().as_bytes());
+						}
+					}
+					root.join(std::ffi::OsString::from_vec(bytes))
+				};
 				if let Some(parent) = p.parent() {
 					let _ = std::fs::create_dir_all(parent);
 				}
@@ -1065,7 +1077,7 @@ fn cases(entry: Entry) -> BoxedStrategy<Case> {
 		}
 		Entry::MbtilesFile => {
 			// valid files with odd but legal SQL content (format strings, NULLs, huge numbers) + byte mutations
-			let seed = (small_spec(vt::containers::Target::Mbtiles.pairs()), any::<u32>(), 0u8..12).prop_map(|(spec, seed, odd)| {
+			let seed = (small_spec(vt::containers::Target::Mbtiles.pairs()), any::<u32>(), 0u8..16).prop_map(|(spec, seed, odd)| {
 				let set = spec.materialise();
 				let p = util::tmp_path(".mbtiles");
 				let _ = codec::mbtiles::encode(&set, &vt::sources::layout_mbtiles(seed), &p);
@@ -1083,6 +1095,16 @@ fn cases(entry: Entry) -> BoxedStrategy<Case> {
 						_ => "SELECT 1",
 					};
 					let _ = conn.execute_batch(sql);
+					if odd >= 11 {
+						// numbers at the ends of the 32- and 64-bit ranges in the integer columns
+						let _ = conn.execute_batch(match odd {
+							11 => "INSERT INTO tiles (zoom_level, tile_column, tile_row, tile_data) VALUES (-2147483648, 1, 1, x'00')",
+							12 => "INSERT INTO tiles (zoom_level, tile_column, tile_row, tile_data) VALUES (3, 2147483647, 1, x'00'); INSERT INTO tiles (zoom_level, tile_column, tile_row, tile_data) VALUES (3, -2147483648, 1, x'00')",
+							13 => "INSERT INTO tiles (zoom_level, tile_column, tile_row, tile_data) VALUES (3, 1, -9223372036854775808, x'00'); INSERT INTO tiles (zoom_level, tile_column, tile_row, tile_data) VALUES (3, 1, 9223372036854775807, x'00')",
+							14 => "INSERT INTO tiles (zoom_level, tile_column, tile_row, tile_data) VALUES (9223372036854775807, 0, 0, x'00')",
+							_ => "INSERT INTO tiles (zoom_level, tile_column, tile_row, tile_data) VALUES (31, 2147483647, 2147483647, x'00'); INSERT INTO tiles (zoom_level, tile_column, tile_row, tile_data) VALUES ('x', 'y', 'z', 'w')",
+						});
+					}
 					if odd == 9 || odd == 10 {
 						// rows the specification does not allow; only meaningful when tiles is a table
 						let _ = conn.execute_batch(if odd == 9 { "INSERT INTO tiles (zoom_level, tile_column, tile_row, tile_data) VALUES (40, 1, 1, x'00')" } else { "INSERT INTO tiles (zoom_level, tile_column, tile_row, tile_data) VALUES (3, -1, 9999999999, NULL)" });
@@ -1110,6 +1132,8 @@ fn dir_names() -> BoxedStrategy<String> {
 				1 => ("[0-9a-z+-]{1,4}", "[0-9a-z+-]{1,12}", "[0-9a-z.+-]{1,14}").prop_map(|(a, b, c)| format!("{a}/{b}/{c}")),
 				// stray members with multi-byte characters at every distance from the end of the name
 				2 => (0u8..6, 0u32..9, "[0-9a-z.äß€日𝄞]{1,9}").prop_map(|(z, x, n)| format!("{z}/{x}/{n}")),
+				// names that are not valid UTF-8 ('¿' becomes the bytes FF FE when the directory is written)
+				1 => prop_oneof![Just("3/4/¿.png"), Just("3/¿/5.png"), Just("¿/4/5.png"), Just("3/4/5¿.pbf.gz"), Just("¿"), Just("¿.json"), Just("3/4/¿")].prop_map(|s| s.to_string()),
 				// upper-case characters whose lower-case form has another UTF-8 length (KELVIN SIGN,
 				// ANGSTROM SIGN, OHM SIGN, CAPITAL SHARP S, I WITH DOT ABOVE), with tile extensions
 				2 => (0u8..6, 0u32..9, "[0-9aK\u{212a}\u{212b}\u{2126}\u{1e9e}\u{130}Ä]{1,5}", prop_oneof![Just(".png"), Just(".pbf"), Just(".PNG"), Just(".jpg.br"), Just(".pbf.gz"), Just("")]).prop_map(|(z, x, n, e)| format!("{z}/{x}/{n}{e}")),
